@@ -121,12 +121,20 @@ pub enum SendFraming {
 /// Reach the body-sending state through the real API (setup; not the observed part).
 /// Returns the sender and the head bytes that were written on the way.
 pub fn reach_sender(ctx: &mut Ctx, framing: SendFraming, use_call: bool, method: &str, despite: bool) -> Result<(Sender, Vec<u8>), String> {
+    reach_sender_ex(ctx, framing, use_call, method, despite, false)
+}
+
+/// `via_added`: the framing header is supplied through Flow<Prepare>::header() (the caller's
+/// amendment) instead of on the original request (flow API only).
+pub fn reach_sender_ex(ctx: &mut Ctx, framing: SendFraming, use_call: bool, method: &str, despite: bool, via_added: bool) -> Result<(Sender, Vec<u8>), String> {
     let mut headers: Vec<Hdr> = Vec::new();
     match framing {
         SendFraming::DefaultChunked => {}
         SendFraming::ExplicitChunked => headers.push(("transfer-encoding".into(), b"chunked".to_vec())),
         SendFraming::Sized(n) => headers.push(("content-length".into(), n.to_string().into_bytes())),
     }
+    let via_added = via_added && !use_call;
+    let added = if via_added { std::mem::take(&mut headers) } else { Vec::new() };
     let req = build_request(method, 11, "http://a.test/upload", &headers);
     let mut buf = vec![0u8; 4096];
     if use_call {
@@ -139,6 +147,9 @@ pub fn reach_sender(ctx: &mut Ctx, framing: SendFraming, use_call: bool, method:
         Ok((Sender::Call(c), buf[..n].to_vec()))
     } else {
         let mut f = lib("Flow::new", || Flow::new(req)).map_err(|e| format!("Flow::new: {e}"))?;
+        for (n, v) in &added {
+            lib("Flow<Prepare>::header", || f.header(n.as_str(), v.as_slice())).map_err(|e| format!("header: {e}"))?;
+        }
         if despite {
             lib("send_body_despite_method", || f.send_body_despite_method());
         }
